@@ -68,6 +68,9 @@ func buildModCatalog() []mCfg {
 	c = append(c, mCfg{stacking: 3, dur: 2, status: 1, dispel: true, hooks: map[string][]mAct{"OnExtendDuration": {{kind: "S"}}}})                                                     // 25: leaves when extended
 	c = append(c, mCfg{stacking: 3, dur: 3, status: 2, dispel: true, hooks: map[string][]mAct{"OnExtendDuration": {{kind: "R", name: 14}}}})                                           // 26: removes an earlier modifier when extended
 	c = append(c, mCfg{stacking: 3, count: 2, max: 6, cadd: 1, status: 1, hooks: map[string][]mAct{"OnExtendCount": {{kind: "S"}}}})                                                   // 27: leaves when its count is extended
+	c = append(c, mCfg{stacking: 1, dur: 2, status: 1, dispel: true})                                                                                                                  // 28: replace-by-source without count or stack increment (count stays "infinite")
+	c = append(c, mCfg{stacking: 6, dur: 2, max: 4, status: 2, dispel: true})                                                                                                          // 29: merge, the same
+	c = append(c, mCfg{stacking: 2, status: 1})                                                                                                                                        // 30: replace, permanent, the same
 	return c
 }
 
@@ -440,6 +443,24 @@ func (modComp) Exec(c *wire.Case, w *wire.Writer) {
 						break
 					}
 				}
+			case "instset", "instweak", "instdres":
+				for _, vi := range sess.mgr.VerifInstances(t) {
+					if sess.uids[vi.Inst] == op.Int("uid") {
+						switch op.Name {
+						case "instset":
+							vi.Inst.SetProperty(prop.Property(op.Int("p")), op.Flt("x"))
+						case "instweak":
+							if op.Bool("on") {
+								vi.Inst.AddWeakness(model.DamageType(op.Int("d")))
+							} else {
+								vi.Inst.RemoveWeakness(model.DamageType(op.Int("d")))
+							}
+						case "instdres":
+							vi.Inst.AddDebuffRES(model.BehaviorFlag(op.Int("f")), op.Flt("x"))
+						}
+						break
+					}
+				}
 			case "mutsnap":
 				// change a stats snapshot handed out by the engine; must not reach the unit
 				st := eng.attr.Stats(t)
@@ -597,6 +618,9 @@ func (modComp) Gen(r *rand.Rand, tier string, n int) []*wire.Case {
 		wire.R("dispel").I("t", 1).I("status", 1).I("order", 2).I("count", 2), wire.R("dispel").I("t", 1).I("status", 2).I("order", 1).I("count", 1), wire.R("dispel").I("t", 1).I("status", 2).I("order", 2).I("count", 0))
 	mk("d-listeners", cat2(one(add(1, 16, 1, 0, 0, "")), one(add(1, 18, 1, 0, 0, "")), one(add(1, 20, 1, 0, 0, "")), one(add(1, 20, 1, 3, 0, "")), one(add(1, 22, 1, 0, 0, "")), one(add(1, 0, 1, 0, 0, "")), one(add(1, 22, 1, 0, 0, "")),
 		turn(1), turn(1), turn(1), one(wire.R("rm").I("t", 1).I("name", 16)), one(add(1, 21, 2, 0, 0, "")), turn(1), turn(1))...)
+	mk("d-no-stack-increment", cat2([]*wire.Rec{add(1, 28, 1, 0, 0, ""), add(1, 28, 1, 0, 0, ""), add(1, 29, 1, 0, 0, ""), add(1, 29, 2, 0, 0, ""), add(1, 30, 1, 0, 0, ""), add(1, 30, 1, 0, 0, "")}, turn(1), turn(1), turn(1))...)
+	mk("d-extend-past-max", add(1, 3, 1, 2, 3, ""), add(1, 3, 2, 1, 0, ""), wire.R("extcnt").I("t", 1).I("name", 3).I("n", 5), wire.R("extcnt").I("t", 1).I("name", 3).I("n", 1), wire.R("extcnt").I("t", 1).I("name", 3).I("n", -2),
+		add(2, 18, 1, 0, 0, ""), wire.R("extcnt").I("t", 2).I("name", 18).I("n", 9), wire.R("extcnt").I("t", 2).I("name", 18).I("n", -9))
 	mk("d-extend", add(1, 3, 1, 2, 2, ""), add(1, 3, 2, 2, 0, ""), wire.R("extdur").I("t", 1).I("name", 3).I("n", 2), wire.R("extcnt").I("t", 1).I("name", 3).I("n", 1), wire.R("extcnt").I("t", 1).I("name", 3).I("n", -3),
 		wire.R("rmsrc").I("t", 1).I("src", 2).I("name", 3))
 	mk("d-extend-reentrant", add(1, 14, 1, 0, 0, ""), add(1, 25, 1, 1, 0, ""), add(1, 25, 2, 2, 0, ""), add(1, 25, 3, 3, 0, ""), wire.R("extdur").I("t", 1).I("name", 25).I("n", 2),
@@ -613,6 +637,11 @@ func (modComp) Gen(r *rand.Rand, tier string, n int) []*wire.Case {
 	mk("d-resist", chanceOp(3, 3, 3, 0.5, 0.4), chanceOp(3, 3, 3, 0.5, 0.5), chanceOp(3, 3, 3, 0.5, 0.6), chanceOp(3, 3, 1, 0.5, 0.6), chanceOp(3, 3, 1, 0.5, 0.65), chanceOp(3, 3, 1, 0.5, 0.7),
 		chanceOp(2, 3, 3, 1, 0.69), chanceOp(2, 3, 3, 1, 0.7), chanceOp(2, 7, 3, 1, 0.34), chanceOp(2, 7, 3, 1, 0.36), chanceOp(2, 8, 1, 1, 0.6), chanceOp(2, 8, 1, 1, 0.7), chanceOp(2, 9, 1, 1, 0.4),
 		chanceOp(1, 0, 2, 0, 0.99), chanceOp(1, 0, 2, -1, 0.99), chanceOp(1, 7, 9, 1, 0.1), chanceOp(9, 7, 1, 1, 0.1), chanceOp(1, 0, 1, 1, 0.1), chanceOp(1, 0, 1, 1, 0.1))
+	mk("d-instance-api", add(1, 3, 1, 0, 0, atk).S("weak", "2:0|4:1"), add(1, 10, 1, 0, 0, "").S("dres", "100:"+wire.FStr(0.25)), add(2, 3, 1, 0, 0, ""),
+		wire.R("instset").I("t", 1).I("uid", 1).I("p", int(prop.ATKPercent)).F("x", 0.5), wire.R("instset").I("t", 1).I("uid", 1).I("p", int(prop.ATKPercent)).F("x", 0.5), wire.R("instset").I("t", 1).I("uid", 1).I("p", int(prop.ATKPercent)).F("x", 0),
+		wire.R("instset").I("t", 1).I("uid", 2).I("p", int(prop.AllDamageReduce)).F("x", 0.3), wire.R("instset").I("t", 1).I("uid", 2).I("p", int(prop.AllDamageReduce)).F("x", 0.1),
+		wire.R("instweak").I("t", 1).I("uid", 1).I("d", 2).B("on", true), wire.R("instweak").I("t", 1).I("uid", 1).I("d", 4).B("on", false), wire.R("instweak").I("t", 2).I("uid", 3).I("d", 6).B("on", true), wire.R("instweak").I("t", 2).I("uid", 3).I("d", 6).B("on", false),
+		wire.R("instdres").I("t", 1).I("uid", 2).I("f", 100).F("x", 0.25), wire.R("instdres").I("t", 1).I("uid", 2).I("f", 101).F("x", -0.5), wire.R("instdres").I("t", 2).I("uid", 3).I("f", 100).F("x", 0.25), wire.R("rm").I("t", 1).I("name", 10))
 	mk("d-flags-counts-dres", add(2, 7, 1, 0, 0, "").S("dres", "100:"+wire.FStr(0.25)), add(2, 8, 1, 0, 0, "").S("dres", "103:"+wire.FStr(0.5)+"|100:"+wire.FStr(0.1)), add(2, 3, 1, 0, 0, ""), add(1, 11, 1, 0, 0, "").S("dres", "101:"+wire.FStr(0.3)),
 		add(1, 14, 1, 0, 0, ""), wire.R("rm").I("t", 2).I("name", 7), add(3, 9, 1, 0, 0, ""))
 	mk("d-stat-parts", add(1, 3, 1, 0, 0, conv), add(1, 10, 1, 0, 0, flat), add(2, 3, 1, 0, 0, spd), add(2, 10, 1, 0, 0, spdconv), add(3, 3, 1, 0, 0, spdconv), wire.R("rm").I("t", 2).I("name", 3))
@@ -672,7 +701,7 @@ func (modComp) Gen(r *rand.Rand, tier string, n int) []*wire.Case {
 			case 9:
 				ops = append(ops, wire.R("extdur").I("t", t).I("name", name).I("n", pick(r, 1, 2, -1)))
 			case 10:
-				ops = append(ops, wire.R("extcnt").I("t", t).I("name", name).I("n", pick(r, 1, 2, -1, -2)))
+				ops = append(ops, wire.R("extcnt").I("t", t).I("name", name).I("n", pick(r, 1, 2, -1, -2, 5, 9, -7))) // also past the maximum and below zero
 			case 11:
 				ops = append(ops, wire.R("dispel").I("t", t).I("status", pick(r, 1, 2, 0)).I("order", pick(r, 1, 2, 3)).I("count", pick(r, 0, 1, 2)))
 			case 12:
@@ -687,7 +716,16 @@ func (modComp) Gen(r *rand.Rand, tier string, n int) []*wire.Case {
 				cursor[t] = (cursor[t] + 1) % 4
 			case 14:
 				if adds > 0 {
-					ops = append(ops, wire.R("instprop").I("t", t).I("uid", 1+r.Intn(adds+1)).I("p", pick(r, int(prop.ATKPercent), int(prop.AllDamageReduce), int(prop.CritChance))).F("x", pick(r, 0.1, 0.3)))
+					switch r.Intn(4) {
+					case 0:
+						ops = append(ops, wire.R("instset").I("t", t).I("uid", 1+r.Intn(adds+1)).I("p", pick(r, int(prop.ATKPercent), int(prop.AllDamageReduce), int(prop.CritChance))).F("x", pick(r, 0.0, 0.1, 0.25, 0.3)))
+					case 1:
+						ops = append(ops, wire.R("instweak").I("t", t).I("uid", 1+r.Intn(adds+1)).I("d", pick(r, 2, 3, 6)).B("on", r.Intn(3) != 0))
+					case 2:
+						ops = append(ops, wire.R("instdres").I("t", t).I("uid", 1+r.Intn(adds+1)).I("f", pick(r, 100, 101, 103)).F("x", pick(r, 0.25, -0.25, 0.5)))
+					default:
+						ops = append(ops, wire.R("instprop").I("t", t).I("uid", 1+r.Intn(adds+1)).I("p", pick(r, int(prop.ATKPercent), int(prop.AllDamageReduce), int(prop.CritChance))).F("x", pick(r, 0.1, 0.3)))
+					}
 				}
 			default:
 				ops = append(ops, wire.R("mutsnap").I("t", t).I("p", int(prop.ATKPercent)).F("x", 3))
